@@ -41,6 +41,8 @@ def configs(tier, seed):
             nchols = [1, 2, 3] if (thorough or i == 0) else [2]
             rdms = ["trial", "zero", "arbitrary"] if (thorough or i == 0) else [["trial", "arbitrary", "zero"][i % 3]]
             walkers = ["generic", "init"] if (thorough or i == 0) else ["generic"]
+            if i <= (2 if thorough else 0):
+                walkers = walkers + ["faint"]
             for nchol in nchols:
                 for rd in rdms:
                     for wk in walkers:
@@ -78,6 +80,38 @@ def setup(cfg):
         k = grid["P"] - 2
         wa = Wa[k]
         wb = wa[:, :nb] if restricted else Wb[k]
+    elif cfg["walker"] == "faint":
+        # a walker whose trial overlap is small but finite: the force bias ~ 1/overlap is large, so the field shift
+        # sqrt(dt)(fb - m) exceeds 1 in modulus at the upper end of the dt ladder.  Input selection only (reference
+        # model): move the generic walker along a fixed complex direction towards the nearest zero t0 of the overlap
+        # polynomial and stop at t0(1 - delta) for the largest delta that gives a shift above 1.5 at dt = LADDER[0].
+        grid = al.walker_grid(n, na, nb, seed, restricted=restricted, cap=4)
+        Wa, Wb, _ = gridmc.lab_walkers(tc, grid, restricted)
+        k = grid["P"] - 2
+        wa0 = Wa[k]
+        wb0 = wa0[:, :nb] if restricted else Wb[k]
+        sec0 = fock.sector(n, na, nb)
+        rd = np.random.default_rng(77 + seed)
+        Da = rd.normal(size=wa0.shape) + 1j * rd.normal(size=wa0.shape)
+        Db = Da[:, :nb] if restricted else rd.normal(size=wb0.shape) + 1j * rd.normal(size=wb0.shape)
+        phi_t = lambda t: sec0.walker_vectors((wa0 + t * Da)[None], (wb0 + t * Db)[None])[:, 0]
+        deg = na + nb
+        tk = 0.7 * np.exp(2j * np.pi * np.arange(2 * deg + 3) / (2 * deg + 3))
+        coef = np.polyfit(tk, np.array([np.conj(p.ket) @ phi_t(t) for t in tk]), deg)
+        roots = np.roots(coef)
+        t0 = roots[np.argmin(np.abs(roots))]
+        h1r = np.array([(h1[0] + h1[1]) / 2] * 2) if restricted else h1
+        mvec = probmc.mf_quantities(h0, h1r, chol, rdm1, LADDER[0])[0]
+        Lops = sec0.chol_ops(chol)
+        wa, wb = wa0, wb0
+        for delta in (0.5, 0.3, 0.2, 0.1, 0.05, 0.02, 0.01):
+            t = t0 * (1 - delta)
+            ph = phi_t(t)
+            O = np.conj(p.ket) @ ph
+            fb = np.array([(np.conj(p.ket) @ Lh @ ph) / O for Lh in Lops])
+            wa, wb = wa0 + t * Da, wb0 + t * Db
+            if np.abs(np.sqrt(LADDER[0]) * (fb - mvec)).max() > 1.5:
+                break
     else:
         wa = tc.Qa[:, :na] + 0j
         wb = (tc.Qa if restricted else tc.Qb)[:, :nb] + 0j
@@ -161,6 +195,8 @@ def job(cfg):
     thorough = cfg["tier"] == "thorough"
     nchol = cfg["nchol"]
     m = {1: 16, 2: 12, 3: 8}[nchol]
+    if cfg["walker"] == "faint":
+        m = {1: 32, 2: 20, 3: 10}[nchol]  # the shifted integrand exp(x.s) needs a higher polynomial degree
     fields, w = probmc.gh_rule(m, nchol)
     M = len(w)
     e0 = 0.3
@@ -172,6 +208,8 @@ def job(cfg):
             out = run_step(S, cfg, dt, fields, np.ones(M), e_shift)
             ref = reference(S, cfg, dt, fields, e_shift, out)
             res.add(states=M, transitions=M, evaluations=M, traces=1)
+            if np.abs(np.sqrt(dt) * (ref["fb"] - ref["m"])).max() > 1.0:
+                res.guard("steps_with_a_field_shift_above_one_in_modulus", 1)
             # (1) propagated walkers = explicit-matrix product
             ew = max(np.abs(out["Wa"] - ref["Wa"]).max(), np.abs(out["Wb"] - ref["Wb"]).max() if out["Wb"].size else 0.0)
             if not ew <= 1e-9 * max(1.0, np.abs(ref["Wa"]).max()):
@@ -265,7 +303,7 @@ def run(ctx):
     ctx.assume("Gaussian average taken by tensor Gauss-Hermite quadrature (exact for the polynomial part to degree 2m-1); residuals below 2e-9 are treated as quadrature/round-off floor")
     ctx.assume("hook values _verif_imp_fun/_verif_theta are the library's own imp_fun/theta (guarded add-only hook in propagate())")
     ctx.pmap(job, configs(ctx.tier, ctx.seed), tasks_per_child=2)
-    ctx.require_guard("ladder_ratios_live", "branch_cos_nonpositive", "branch_below_1e-3", "branch_above_100",
+    ctx.require_guard("ladder_ratios_live", "branch_cos_nonpositive", "branch_below_1e-3", "branch_above_100", "steps_with_a_field_shift_above_one_in_modulus",
                       "branch_product_above_100", "branch_normal")
 
 
